@@ -365,6 +365,8 @@ class Run:
             h = cand[0]
             # (a) corrupt one recorded field
             hc, what = corrupt(h, field)
+            if hc is None:
+                raise MachineryError("self-test: no mutable field %s in the history of gen %s (nothing would be judged)" % (field, gen))
             # (b) remove one event (default: the first after Reset; remove_match: the first event having these fields)
             ri = 1
             if remove_match:
@@ -507,11 +509,8 @@ def main(pid, body, level="model_checking"):
                                                      "model states=%d trace states=%d histories=%d" % (run.mc_states, run.trace_states, run.histories), time.time() - run.t0))
     except MachineryError as ex:
         log("MACHINERY-ERROR %s: %s" % (pid, ex))
-        try:
-            run.extra["machinery_error"] = str(ex)[:2000]
-        except Exception:
-            pass
-        rc = 2
+        # a confirmed, reproduced violation stands even if a later stage of the run failed
+        rc = 1 if run.violations else 2
     finally:
         run.cleanup()
     sys.exit(rc)
